@@ -5,9 +5,11 @@ import (
 	"bytes"
 	"fmt"
 	"sort"
+	"strings"
 	"testing"
 
 	"go.starlark.net/starlark"
+	"go.starlark.net/syntax"
 	"pgregory.net/rapid"
 	"verif/harness/gen"
 	"verif/harness/run"
@@ -156,6 +158,17 @@ func checkSerial(p gen.Program) error {
 	if err != nil {
 		return fmt.Errorf("CompiledProgram rejects the output of Write: %v", err)
 	}
+	// Other programs are decoded (and one is run) between reading q back and using it: a decoded program
+	// must not share storage with the reader's buffers or with programs decoded later.
+	for i := 0; i < 3; i++ {
+		d, err := starlark.CompiledProgram(bytes.NewReader(decoyBytes[i%len(decoyBytes)]))
+		if err != nil {
+			return fmt.Errorf("decoy program rejected: %v", err)
+		}
+		if i == 1 {
+			d.Init(&starlark.Thread{Name: "decoy"}, nil)
+		}
+	}
 	var buf2 bytes.Buffer
 	if err := q.Write(&buf2); err != nil {
 		return fmt.Errorf("second Write failed: %v", err)
@@ -231,6 +244,25 @@ func checkSerial(p gen.Program) error {
 }
 
 var subSerial = vk.Register("serial", checkSerial)
+
+// decoyBytes are serialised unrelated programs of different sizes (longer and shorter than typical cases).
+var decoyBytes = func() [][]byte {
+	var out [][]byte
+	for _, src := range []string{
+		"DECOY_A = \"" + strings.Repeat("decoy-string-constant-", 200) + "\"\ndef decoy_fn(decoy_param = 12345678901234567890):\n    \"decoy doc\"\n    return [decoy_param, b\"decoy-bytes\", 2.5]\nDECOY_B = decoy_fn()\n",
+		"Z = 1\n",
+		"load(\"decoy_module.star\", \"decoy_name\")\n" + strings.Repeat("DECOY_PAD = (lambda decoy_x: decoy_x + 1)(1)\n", 60),
+	} {
+		_, prog, err := starlark.SourceProgramOptions(&syntax.FileOptions{GlobalReassign: true}, "decoy-file-name.star", src, func(string) bool { return false })
+		if err != nil {
+			panic(err)
+		}
+		var buf bytes.Buffer
+		prog.Write(&buf)
+		out = append(out, buf.Bytes())
+	}
+	return out
+}()
 
 func TestPropSerial(t *testing.T) {
 	vk.Rapid(t, subSerial, vk.N(2500, 25000), func(t *rapid.T) gen.Program {
